@@ -273,6 +273,14 @@ def _format_model(obj, spec=""):
             # (no property observes it); the constructor itself and its attributes stay real.
             HIT.add("M1")
             return "?"
+        if type(spec) is str and spec == "" and isinstance(obj, SymbolicInt):
+            dec = True
+        else:
+            dec = False
+    if dec:
+        HIT.add("B2")
+        return obj.__repr__()  # CrossHair's symbolic decimal digits (forks on the digit count only)
+    with NoTracing():
         m = _SPEC.match(spec) if type(spec) is str else None
         kind = None
         if m is not None and spec != "":
@@ -479,3 +487,67 @@ def _to_bytes(self, length=1, byteorder="big", *, signed=False):
 
 
 SymbolicInt.to_bytes = _to_bytes
+
+# ---------------------------------------------------------------- E8: defaultdict[symbolic key]
+# CrossHair fans a symbolic key out over the entries of a plain dict, but not of a defaultdict:
+# there CPython hashes the key natively (concretising it) and, on a miss, *inserts the symbolic
+# object itself* into the module-level table (tpmstream's TPM_RC name tables are defaultdicts),
+# which leaks symbolic values into later paths.  Model: fan out over the existing entries; on a
+# miss return default_factory() without inserting (insertion only affects later look-ups of the
+# same key, which yield the same default).
+import collections
+from crosshair.libimpl.builtinslib import AtomicSymbolicValue
+from crosshair.opcode_intercept import BINARY_SUBSCR, MultiSubscriptableContainer
+
+BINARY_OP = dis.opmap.get("BINARY_OP", 256)
+
+
+class _DefaultDictView:
+    def __init__(self, dd):
+        self.dd = dd
+
+    def __getitem__(self, key):
+        with NoTracing():
+            plain = dict(self.dd)
+            factory = self.dd.default_factory
+        HIT.add("E8")
+        try:
+            return MultiSubscriptableContainer(plain)[key]
+        except KeyError:
+            if factory is None:
+                raise
+            return factory()
+
+
+class DefaultDictSubscript(TracingModule):
+    opcodes_wanted = frozenset([BINARY_SUBSCR, BINARY_OP])
+
+    def trace_op(self, frame, codeobj, codenum):
+        if codenum == BINARY_OP:
+            if frame.f_code.co_code[frame.f_lasti + 1] != 26:
+                return
+        key = frame_stack_read(frame, -1)
+        if not isinstance(key, AtomicSymbolicValue):
+            return
+        container = frame_stack_read(frame, -2)
+        if type(container) is collections.defaultdict:
+            frame_stack_write(frame, -2, _DefaultDictView(container))
+
+
+register_opcode_patch(DefaultDictSubscript())
+
+# ---------------------------------------------------------------- E9: getattr(obj, concrete name)
+# CrossHair's getattr patch looks the attribute up with tracing switched off, so a pure-Python
+# descriptor (tpm_bitfield's Bit.__get__) would run untraced on symbolic data.  With a concrete
+# name the builtin is simply called with tracing on.
+_prev_getattr = _PATCH_REGISTRATIONS[getattr]
+
+
+def _getattr(obj, name, *default):
+    if type(name) is str:
+        HIT.add("E9")
+        return getattr(obj, name, *default)
+    return _prev_getattr(obj, name, *default)
+
+
+_PATCH_REGISTRATIONS[getattr] = _getattr
